@@ -3,6 +3,8 @@ import Mathlib.Tactic.Ring
 import Mathlib.Tactic.Linarith
 import Mathlib.Algebra.BigOperators.Group.Finset.Basic
 import Mathlib.Algebra.BigOperators.Ring.Finset
+import Mathlib.Data.Matrix.Mul
+import Mathlib.Data.Fintype.BigOperators
 
 namespace Yuiv.C12
 open Yuiv
@@ -392,6 +394,136 @@ theorem solveBuf_spec (hA : UnitTriang upper A n u v) (b : Array R) (hb : b.size
     cases upper
     · rfl
     · exact axAt_reverse A n es' i
+
+/-! ### right-hand sides, column loop, schedules -/
+
+theorem size_copyInto (b : Array R) (l : List (Nat × R)) : (copyInto b l).size = b.size := by
+  induction l generalizing b with
+  | nil => rfl
+  | cons e l ih => unfold copyInto; rw [ih, size_bset]
+
+theorem colSum_not_mem (l : List (Nat × R)) (k : Nat) (h : k ∉ l.map (·.1)) : colSum l k = 0 := by
+  apply colSum_eq_zero
+  intro e he hk
+  exact absurd (List.mem_map.2 ⟨e, he, hk⟩) h
+
+theorem bget_copyInto (l : List (Nat × R)) (b : Array R) (hl : ∀ e ∈ l, e.1 < b.size)
+    (hnd : (l.map (·.1)).Nodup) (k : Nat) :
+    bget (copyInto b l) k = if k ∈ l.map (·.1) then colSum l k else bget b k := by
+  induction l generalizing b with
+  | nil => simp [copyInto]
+  | cons e l ih =>
+    have he : e.1 < b.size := hl e (by simp)
+    rw [List.map_cons, List.nodup_cons] at hnd
+    unfold copyInto
+    rw [ih _ (fun e' h' => by rw [size_bset]; exact hl e' (by simp [h'])) hnd.2, bget_bset, colSum_cons]
+    by_cases hk : k ∈ l.map (·.1)
+    · have hne : e.1 ≠ k := fun h => hnd.1 (h ▸ hk)
+      simp [hk, hne]
+    · by_cases hek : e.1 = k
+      · subst hek; simp [hk, he, colSum_not_mem l _ hk]
+      · have : ¬ (k = e.1) := fun h => hek h.symm
+        simp [hk, hek, this]
+
+/-- the stored pattern of a right-hand side: row indices in range, no row stored twice in a column (CSC) -/
+structure WFY (Y : SpMat R) (n : Nat) : Prop where
+  nrows : Y.nrows = n
+  size : Y.cols.size = Y.ncols
+  rows : ∀ j, ∀ e ∈ col Y j, e.1 < n
+  nodup : ∀ j, ((col Y j).map (·.1)).Nodup
+
+theorem bget_copyInto_zero {Y : SpMat R} (hY : WFY Y n) (j i : Nat) :
+    bget (copyInto (zeroBuf n) (colVec Y j)) i = entry Y i j := by
+  rw [bget_copyInto]
+  · rw [entry_colVec]
+    split
+    · rfl
+    · rename_i h
+      rw [bget_zeroBuf, ← entry_colVec, colSum_not_mem _ _ h]
+  · intro e he; simp only [zeroBuf, Array.size_replicate]; exact hY.rows j e (List.mem_of_mem_filter he)
+  · exact (hY.nodup j).sublist ((List.filter_sublist).map _)
+
+/-- the result a FRESH (all-zero) buffer gives for column `j` of `Y` -/
+def freshCol (upper : Bool) (A Y : SpMat R) (n j : Nat) : List (Nat × R) :=
+  match solveBuf upper A (collectDiag A) (copyInto (zeroBuf n) (colVec Y j)) with
+  | .ok (_, es) => es
+  | _ => []
+
+theorem freshCol_spec (hA : UnitTriang upper A n u v) {Y : SpMat R} (hY : WFY Y n) (j : Nat) :
+    solveBuf upper A (collectDiag A) (copyInto (zeroBuf n) (colVec Y j)) = .ok (zeroBuf n, freshCol upper A Y n j) ∧
+    (∀ e ∈ freshCol upper A Y n j, e.1 < n) ∧ ∀ i, axAt A n (freshCol upper A Y n j) i = entry Y i j := by
+  obtain ⟨es, h1, h2, h3⟩ := solveBuf_spec hA (copyInto (zeroBuf n) (colVec Y j)) (by simp [size_copyInto, zeroBuf])
+  have : freshCol upper A Y n j = es := by unfold freshCol; rw [h1]
+  rw [this]
+  exact ⟨h1, h2, fun i => by rw [h3 i, bget_copyInto_zero hY]⟩
+
+/-- one worker, any list of columns: every column gets the fresh-buffer result and the buffer is zero again -/
+theorem solveCols_spec (hA : UnitTriang upper A n u v) {Y : SpMat R} (hY : WFY Y n) (js : List Nat) :
+    solveCols upper A (collectDiag A) Y (zeroBuf n) js = .ok (zeroBuf n, js.map (freshCol upper A Y n)) := by
+  induction js with
+  | nil => rfl
+  | cons j js ih =>
+    unfold solveCols
+    rw [(freshCol_spec hA hY j).1]
+    simp only [ih, List.map_cons]
+
+/-- any assignment of columns to worker buffers -/
+theorem runSched_spec (hA : UnitTriang upper A n u v) {Y : SpMat R} (hY : WFY Y n)
+    (evs : List (Nat × Nat)) (bufs : Nat → Array R) (hb : ∀ w, bufs w = zeroBuf n) :
+    runSched upper A (collectDiag A) Y bufs evs = .ok (evs.map fun wj => (wj.2, freshCol upper A Y n wj.2)) := by
+  induction evs generalizing bufs with
+  | nil => rfl
+  | cons wj evs ih =>
+    unfold runSched
+    rw [hb wj.1, (freshCol_spec hA hY wj.2).1]
+    simp only
+    rw [ih _ (fun w => by by_cases h : w = wj.1 <;> simp [h, hb])]
+    rfl
+
+/-! ### `solve_triangular` as a matrix equation -/
+
+def toMatrix (A : SpMat R) (m n : Nat) : Matrix (Fin m) (Fin n) R := fun i j => entry A i j
+
+theorem UnitTriang.isTriang (hA : UnitTriang upper A n u v) : isTriang upper A = true := by
+  unfold C12.isTriang
+  rw [hA.nrows, hA.ncols]
+  simp only [bne_self_eq_false, Bool.false_eq_true, if_false, List.all_eq_true, List.mem_range]
+  intro j hj e he
+  by_cases hz : isZero e.2 = true
+  · simp [hz]
+  · have := hA.tri j hj e he (by simpa using hz)
+    cases upper <;> simp_all
+
+theorem solve_eq (hA : UnitTriang upper A n u v) {Y : SpMat R} (hY : WFY Y n) :
+    solve upper A Y = .ok ⟨n, Y.ncols, ((List.range Y.ncols).map (freshCol upper A Y n)).toArray⟩ := by
+  unfold solve
+  rw [hA.nrows, hY.nrows, hA.isTriang, solveCols_spec hA hY]
+  simp
+
+theorem col_mk (m k : Nat) (f : Nat → List (Nat × R)) (j : Nat) (hj : j < k) :
+    col (⟨m, k, ((List.range k).map f).toArray⟩ : SpMat R) j = f j := by
+  simp [col, hj]
+
+theorem solve_correct (hA : UnitTriang upper A n u v) {Y : SpMat R} (hY : WFY Y n) :
+    ∃ X, solve upper A Y = .ok X ∧ X.nrows = n ∧ X.ncols = Y.ncols ∧ (∀ j, ∀ e ∈ col X j, e.1 < n) ∧
+      toMatrix A n n * toMatrix X n Y.ncols = toMatrix Y n Y.ncols := by
+  refine ⟨_, solve_eq hA hY, rfl, rfl, ?_, ?_⟩
+  · intro j e he
+    by_cases hj : j < Y.ncols
+    · rw [col_mk _ _ _ _ hj] at he
+      exact (freshCol_spec hA hY j).2.1 e he
+    · simp [col, hj] at he
+  · ext i j
+    rw [Matrix.mul_apply]
+    simp only [toMatrix]
+    rw [Fin.sum_univ_eq_sum_range (fun l => entry A i l * entry _ l j) n]
+    have := (freshCol_spec hA hY j).2.2 i
+    unfold axAt at this
+    rw [← this]
+    apply Finset.sum_congr rfl
+    intro l _
+    unfold entry
+    rw [col_mk _ _ _ _ j.2]
 
 end
 end Yuiv.C12
